@@ -168,6 +168,9 @@ def path_rules(col, gcode, paths, I):
                                    '%s %s word not tracked' % (gcode, letter),
                                    'the move carries a %s word but the tracked position does not follow it '
                                    '(enabled=%s, excluded=%s)' % (letter, f.pre_enabled, f.any_excluded), detail=detail)
+            from .pathfacts import exact_tracking
+            for (fn, construct, msg) in exact_tracking(f, gcode):
+                col.report('C01.R6', fn, construct, msg, detail=detail)
         if f.kind == 'list' and (entering or inside):
             col.sample({'entry': p.entry, 'result': f.describe(), 'decisions': f.decisions()[-5:]})
 
